@@ -149,6 +149,17 @@ def gen_points(rng, n1, n2, r_km, mi_s, big=False):
     r_m = r_km * 1000.0
     ncl = rng.choice([1, 1, 2, 3])
     centres = [gen_centre(rng) for _ in range(ncl)]
+    if big:
+        # the big sets are spread over a box so that the number of near pairs stays moderate
+        c0 = centres[0]
+        centres = [(max(-80 * 10 ** 8, min(80 * 10 ** 8, c0[0])), c0[1])]
+    box = 1.2 * 10 ** 8
+
+    def rpos():
+        c = rng.choice(centres)
+        if big:
+            return clampk(c[0] + rng.uniform(-box, box), c[1] + rng.uniform(-box, box))
+        return offset_point(rng, c[0], c[1], rng.uniform(0, spread))
     spread = rng.choice([0.5, 1.5, 3.0, 10.0]) * r_m
     span_s = rng.choice([0, max(1, mi_s // 2), mi_s * 3, mi_s * 20]) if not big else mi_s * rng.choice([40, 150, 400])
     sub = rng.random() < 0.5          # sub-second parts
@@ -161,7 +172,7 @@ def gen_points(rng, n1, n2, r_km, mi_s, big=False):
     prim = []
     for i in range(n1):
         c = rng.choice(centres)
-        la, lo = offset_point(rng, c[0], c[1], rng.uniform(0, spread))
+        la, lo = rpos()
         if prim and rng.random() < 0.08:
             la, lo = rng.choice(prim)[2:4]                        # duplicate position
             if la is None:
@@ -172,7 +183,7 @@ def gen_points(rng, n1, n2, r_km, mi_s, big=False):
     for j in range(n2):
         style = rng.random()
         p = rng.choice(prim)
-        if style < (0.5 if not big else 0.2) and p[2] is not None:
+        if style < (0.5 if not big else 0.3) and p[2] is not None:
             # partner of a primary: distance just below / above the threshold (outside the guard band)
             delta = rng.choice([-0.3, -1e-2, -1e-3, -1e-4, -2e-5, 2e-5, 1e-4, 1e-3, 1e-2, 0.3, -1.0])
             la, lo = offset_point(rng, p[2], p[3], r_m * (1 + delta))
@@ -186,8 +197,7 @@ def gen_points(rng, n1, n2, r_km, mi_s, big=False):
             else:
                 t = rtime()
         else:
-            c = rng.choice(centres)
-            la, lo = offset_point(rng, c[0], c[1], rng.uniform(0, spread))
+            la, lo = rpos()
             t = rtime()
         seco.append([5000 + j, t, la, lo])
     return prim, seco
@@ -254,31 +264,28 @@ def gen_window(rng, prim, seco, mi_s):
     lo, hi = ts[0] // SEC, ts[-1] // SEC + 1
     a = rng.randint(lo - 2, hi)
     b = rng.randint(a, hi + 2)
-    if rng.random() < 0.2:
+    if rng.random() < 0.3:
         a = rng.choice(ts) // SEC        # a bound exactly on a (whole-second) time or just below a sub-second one
+        b = max(b, a)
+    if rng.random() < 0.3:
+        b = max(a, rng.choice(ts) // SEC)
     return a, b, rng.choice(["datetime", "string"])
 
 
-def gen_call(rng, big=False):
+def gen_call(rng, big=False, larger=None, quick=False):
     r_km = rng.choice([0.5, 1, 2, 5, 30, 100, 300, 2000]) if not big else rng.choice([3, 5, 8])
     mi_s = rng.choice([1, 2, 10, 60, 600, 3600]) if not big else rng.choice([2, 10, 60])
     if big:
-        n1 = rng.choice([1001, 1100, 1500, 2000, 3000])
+        n1 = rng.choice([1001, 1100, 1500, 2000, 3000]) if not quick else rng.choice([1050, 1101, 1200])
         n2 = rng.choice([1000, 1001, 1200]) if n1 < 2500 else rng.choice([400, 1000])
-        if rng.random() < 0.5:
+        if quick:
+            n2 = 1000
+        if (rng.random() < 0.5) if larger is None else (larger == "secondary"):
             n1, n2 = n2, n1
     else:
         sizes = [1, 1, 2, 3, 5, 8, 12, 13, 20, 36, 60]
         n1, n2 = rng.choice(sizes), rng.choice(sizes)
     prim, seco = gen_points(rng, n1, n2, r_km, mi_s, big)
-    if big:
-        # spread the big sets over a box so that the number of near pairs stays moderate
-        box = 1.2 * 10 ** 8
-        c = gen_centre(rng)
-        c = (max(-80 * 10 ** 8, min(80 * 10 ** 8, c[0])), c[1])
-        for p in prim + seco:
-            if rng.random() < 0.85:
-                p[2], p[3] = clampk(c[0] + rng.uniform(-box, box), c[1] + rng.uniform(-box, box))
     nanp = rng.choice([0, 0, 0.1, 0.3])
     add_nans(rng, prim, nanp)
     add_nans(rng, seco, rng.choice([0, 0, 0.1]))
@@ -349,9 +356,10 @@ def gen_broadcast(rng):
     return [c1, c2]
 
 
-def gen_case(rng, k, big=False):
+def gen_case(rng, k, big=False, quick=False):
     if big:
-        return {"id": k, "kind": "big", "calls": [gen_call(rng, big=True)]}
+        # both size orderings (the binned path swaps the datasets when the secondary is the larger one)
+        return {"id": k, "kind": "big", "calls": [gen_call(rng, big=True, larger=("primary", "secondary")[k % 2], quick=quick)]}
     style = rng.random()
     if style < 0.10:
         return {"id": k, "kind": "stale", "calls": gen_stale(rng)}
@@ -692,10 +700,10 @@ def new_stats():
 def run(ctx):
     ctx.prove("Props/C04.v")
     n_small = ctx.n(70, 900)
-    n_big = ctx.n(1, 6)
+    n_big = ctx.n(2, 6)
     stats = new_stats()
     cases = [gen_case(ctx.rng, k) for k in range(n_small)]
-    bigs = [gen_case(ctx.rng, 100000 + k, big=True) for k in range(n_big)]
+    bigs = [gen_case(ctx.rng, 100000 + k, big=True, quick=not ctx.thorough) for k in range(n_big)]
     check_cases(ctx, cases, stats, shard=ctx.n(5, 20))
     check_cases(ctx, bigs, stats, shard=1)
     ctx.cov["distinct_nontrivial"] = len(stats["nontrivial"])
